@@ -185,6 +185,7 @@ def optNat (s : String) : Option (Option Nat) :=
 
 def step (c : Cfg) (toks : List String) : Cfg × String :=
   match toks with
+  | "tag" :: _ => (c, "ok")
   | ["srv", h] =>
     match unhex h with
     | some b => ({ c with chunks := b :: c.chunks }, "ok")
